@@ -350,6 +350,8 @@ func runC05(c *Ctx) int {
 	for _, o := range runChildren(c, specs, 3) { // few at a time: each attack wants all cores
 		foldChild(run, o, inVegeta)
 	}
+	c05CLI(c, run)
+	run.Floor("cli_attacks", int64(c.Pick(3, 14)))
 	run.Floor("attacks", int64(shards*per*9/10))
 	run.Floor("results", int64(shards*per*20000*9/10))
 	run.Floor("results_arriving_out_of_seq_order", 1000)
